@@ -3,6 +3,7 @@
   not depend on the schedule.
 -/
 import PsProofs.ParallelCount
+import PsModel.Generated.Locks
 
 namespace Ps.Props
 open Ps Ps.Spec
@@ -71,5 +72,16 @@ theorem C09_schedule_independent (N T : Nat) (g : Nat → Nat) (owner : Nat → 
 /-- non-vacuity: [0, 100] in pieces of length 30 -/
 example : (List.range (numPieces 0 100 30)).map (pieceN 0 100 30) = [(0, 62), (63, 92), (93, 100), (101, 100)] := by
   decide
+
+/-- **C09 (model sources)** regenerated on every run: digests of the (comment-, hook- and whitespace-normalised) bodies of the
+    functions that the hand-written model behind the theorems of this file mirrors.  An edit to one of
+    them — harmless or not — breaks this obligation; the check then searches for a failing input
+    with the correspondence streams (DESIGN.md section 2, step 5). -/
+theorem C09_model_sources :
+    Gen.modelSources.filter (fun e => e.1 ∈ ["ParallelSieve.align", "ParallelSieve.getThreadDistance", "ParallelSieve.idealNumThreads", "ParallelSieve.sieve"]) =
+     [("ParallelSieve.align", "60dc0866ae1c2879bdbc"),
+      ("ParallelSieve.getThreadDistance", "2c9fda697b82c39b7630"),
+      ("ParallelSieve.idealNumThreads", "87d1bd984b0d89acf057"),
+      ("ParallelSieve.sieve", "ec8cd71bc175a45e7127")] := by decide
 
 end Ps.Props
